@@ -29,6 +29,8 @@ META = dict(
           "2..10 per axis, distances 0.05..20 (anisotropic in 2-D), hyper-prior means over two orders of "
           "magnitude, flexibility/asperity on/off, both Hartley conventions, offset mean; JAX-only options "
           "non_parametric_kind in {amplitude, power} and Matern renormalize_amplitude checked for (b) only; "
+          "classic-only options: Matern adjust_for_volume in {True, False} on volumes != 1, total_N in 1..3 with "
+          "dofdex in {None, zeros, range}, explicit harmonic_partner, per-space prefixes, insertion via index=0; "
           "random latent draws. non-trivial: product of two spaces, or Matern, or anisotropic distances; "
           "distinct = distinct configuration descriptor"),
     assumptions=[
@@ -40,13 +42,14 @@ META = dict(
         "documented to be the fluctuation scale)",
     ],
     need=["agree_checks", "cl_total", "cl_slice_avg", "re_total", "refinement_pairs", "matern_cases",
-          "product_cases"],
+          "product_cases", "matern_noadjust_volume_ne_1"],
     quick=dict(cases=110, workers=6, budget_s=60),
     thorough=dict(cases=2500, workers=16, budget_s=780),
     design_ref="DESIGN.md §5 C28",
     level_text="~100 (quick) generated model configurations, each with exact (not sampled) variances",
-    level_note=("trusts numpy; tolerances 1e-10 (agreement) and 1e-9 (variances) relative; total_N > 0 "
-                "(arrays of fields, dofdex) not generated"),
+    level_note=("trusts numpy; tolerances 1e-10 (agreement) and 1e-9 (variances) relative; options without a "
+                "nifty.re counterpart (adjust_for_volume=False, total_N/dofdex) are checked for normalisation "
+                "only"),
 )
 
 
@@ -123,21 +126,54 @@ def gen_config(ck, rng, i=0):
             spaces.reverse()
     for sp in spaces:
         sp.setdefault("matern", False)
+        # documented classic-only option of add_fluctuations_matern (nifty.re has no counterpart)
+        sp["adjust"] = bool(rng.integers(0, 2)) if sp["matern"] else True
+        # pass the (default) harmonic partner explicitly / give the space an own prefix
+        sp["explicit_hp"] = bool(rng.integers(0, 3) == 0)
+        sp["pfx"] = pick(rng, ["s", "s", "ax", "sp_"])
     cfg = dict(fam=fam, spaces=spaces, conv=pick(rng, ["canonical_hartley", "non_canonical_hartley"]),
                offset_mean=rfloat(rng, -3, 3, nd=3), offset_std=ln_prior(rng, 0.05, 5.0),
-               prefix=pick(rng, ["", "cf_"]))
+               prefix=pick(rng, ["", "cf_"]), total_N=0, dofdex=None,
+               insert_reversed=bool(len(spaces) == 2 and rng.integers(0, 3) == 0))
+    # arrays of field models (classic only): total_N copies sharing (dofdex all 0) or not sharing
+    # (dofdex = range) their power-spectrum parameters
+    if fam == "np1" and spaces[0]["t"] == "rg" and rng.integers(0, 4) == 0:
+        cfg["total_N"] = int(pick(rng, [1, 2, 3]))
+        cfg["dofdex"] = pick(rng, [None, "zeros", "range"])
     return cfg
 
 
+def volume(sp):
+    return float(np.prod(np.array(sp["shape"]) * np.array(sp["dist"])))
+
+
 def build_cl(ift, cfg):
-    cfm = ift.CorrelatedFieldMaker(cfg["prefix"])
-    cfm.set_amplitude_total_offset(cfg["offset_mean"], cfg["offset_std"])
-    for i, sp in enumerate(cfg["spaces"]):
+    N = cfg.get("total_N", 0)
+    dd = cfg.get("dofdex")
+    dofdex = None if dd is None else ([0] * N if dd == "zeros" else list(range(N)))
+    dkw = {} if dofdex is None else dict(dofdex=dofdex)
+    cfm = ift.CorrelatedFieldMaker(cfg["prefix"], total_N=N) if N else ift.CorrelatedFieldMaker(cfg["prefix"])
+    cfm.set_amplitude_total_offset(cfg["offset_mean"], cfg["offset_std"], **dkw)
+    order = list(enumerate(cfg["spaces"]))
+    rev = cfg.get("insert_reversed", False)
+    if rev:
+        order.reverse()            # second space first, the first one is then inserted with index=0
+    for cnt, (i, sp) in enumerate(order):
         dom = ift.HPSpace(sp["shape"][0]) if sp["t"] == "hp" else ift.RGSpace(sp["shape"], sp["dist"])
+        kw = dict(prefix=sp.get("pfx", "s") + str(i))
+        if sp.get("explicit_hp"):
+            kw["harmonic_partner"] = dom.get_default_codomain()
+        if rev and cnt == 1:
+            if sp["matern"]:
+                # add_fluctuations_matern has no `index`: build in natural order instead
+                return build_cl(ift, dict(cfg, insert_reversed=False))
+            kw["index"] = 0
         if sp["matern"]:
-            cfm.add_fluctuations_matern(dom, **sp["kw"], prefix=f"s{i}")
+            if not sp.get("adjust", True):
+                kw["adjust_for_volume"] = False
+            cfm.add_fluctuations_matern(dom, **sp["kw"], **kw)
         else:
-            cfm.add_fluctuations(dom, **sp["kw"], prefix=f"s{i}")
+            cfm.add_fluctuations(dom, **sp["kw"], **kw, **dkw)
     return cfm, cfm.finalize(prior_info=0)
 
 
@@ -148,12 +184,12 @@ def build_re(jft, cfg, kinds=None, renorm=None):
     for i, sp in enumerate(cfg["spaces"]):
         if sp["matern"]:
             cfm.add_fluctuations_matern(
-                sp["shape"], distances=sp["dist"], **sp["kw"], prefix=f"s{i}",
+                sp["shape"], distances=sp["dist"], **sp["kw"], prefix=sp.get("pfx", "s") + str(i),
                 non_parametric_kind="amplitude" if kinds is None else kinds[i],
                 renormalize_amplitude=False if renorm is None else renorm)
         else:
             extra = dict(harmonic_type="spherical") if sp["t"] == "hp" else {}
-            cfm.add_fluctuations(sp["shape"], distances=sp["dist"], **sp["kw"], prefix=f"s{i}",
+            cfm.add_fluctuations(sp["shape"], distances=sp["dist"], **sp["kw"], prefix=sp.get("pfx", "s") + str(i),
                                  non_parametric_kind="power" if kinds is None else kinds[i], **extra)
     return cfm, cfm.finalize()
 
@@ -196,6 +232,57 @@ def product_formula(azm, fl):
     return tot, sl, list(fl)
 
 
+def case_total_N(ck, ift, rng, cfg, ccfm, ccf, xik, bad):
+    """arrays of field models (classic only): per-copy realised std vs the per-copy predictions"""
+    N = cfg["total_N"]
+    sp = cfg["spaces"][0]
+    pos = {k: rng.standard_normal(ccf.domain[k].shape) for k in ccf.domain.keys()}
+    n = int(np.prod(pos[xik].shape))
+    ck.hit("total_N_cases")
+    if n > 150:
+        return
+
+    def mk(p):
+        return ift.MultiField.from_dict({k: ift.makeField(ccf.domain[k], v) for k, v in p.items()}, ccf.domain)
+    shape = ccf.target.shape
+    if tuple(shape) != (N,) + tuple(sp["shape"]):
+        bad("cl:total_N:target-shape", "target of the field array is not (total_N,) + shape", shape=list(shape))
+        return
+    base = dict(pos)
+    base[xik] = np.zeros_like(pos[xik])
+    f0 = ccf(mk(base)).asnumpy()
+    A = np.zeros((f0.size, n))
+    for j in range(n):
+        e = np.zeros(n)
+        e[j] = 1.0
+        base[xik] = e.reshape(pos[xik].shape)
+        A[:, j] = (ccf(mk(base)).asnumpy() - f0).ravel()
+    if ndev(A @ pos[xik].ravel() + f0.ravel(), ccf(mk(pos)).asnumpy().ravel()) > 1e-9:
+        bad("cl-not-affine-in-xi", "classic model is not affine in the excitations")
+        return
+    T = A.reshape((N, -1, n))
+    lat = mk(pos)
+    grp = [tuple(range(len(sp["shape"])))]
+    preds = {nm: np.atleast_1d(op.force(lat).asnumpy()) for nm, op in
+             (("total_fluctuation", ccfm.total_fluctuation), ("slice_fluctuation", ccfm.slice_fluctuation(0)),
+              ("average_fluctuation", ccfm.average_fluctuation(0)))}
+    for c in range(N):
+        tot, sl, av = fluct_measures(T[c], sp["shape"], grp)
+        for nm, real in (("total_fluctuation", tot), ("slice_fluctuation", sl[0]), ("average_fluctuation", av[0])):
+            ck.hit("cl_total_N_checks")
+            p = preds[nm]
+            if p.shape != (N,) or not rel(float(p[c]), real) <= 1e-9:
+                bad(f"cl:total_N:{nm}", f"realised fluctuation of copy {c} of a field array != {nm} of the maker",
+                    realised=real, predicted=p.tolist(), dofdex=cfg["dofdex"])
+    # copies share their spectrum parameters iff dofdex is all zero (or not given)
+    shared = cfg["dofdex"] in (None, "zeros")
+    nfl = int(np.prod(ccf.domain[cfg["prefix"] + sp["pfx"] + "0fluctuations"].shape))
+    ck.hit("cl_total_N_checks")
+    if nfl != (1 if shared else N):
+        bad("cl:total_N:dofdex", "number of independent spectrum parameter sets does not follow dofdex",
+            observed=nfl, dofdex=cfg["dofdex"], total_N=N)
+
+
 def rel(a, b):
     return abs(a - b) / max(abs(a), abs(b), 1e-300)
 
@@ -218,7 +305,14 @@ def case(ck, i):
     aniso = any(sp["t"] == "rg" and len(set(sp["dist"])) > 1 for sp in cfg["spaces"])
     nsp = len(cfg["spaces"])
     desc = dict(cfg, spaces=[dict(t=sp["t"], shape=sp["shape"], dist=sp["dist"], matern=sp["matern"],
-                                  kw=sp["kw"]) for sp in cfg["spaces"]])
+                                  kw=sp["kw"], adjust=sp["adjust"], explicit_hp=sp["explicit_hp"],
+                                  pfx=sp["pfx"]) for sp in cfg["spaces"]])
+    noadjust = [sp for sp in cfg["spaces"] if sp["matern"] and not sp["adjust"]]
+    cl_only = bool(noadjust) or cfg["total_N"] > 0
+    if noadjust:
+        ck.hit("matern_noadjust_cases")
+        if any(abs(volume(sp) - 1) > 0.05 for sp in noadjust):
+            ck.hit("matern_noadjust_volume_ne_1")
     ck.note(desc, nontrivial=(nsp == 2 or has_matern or aniso), klass=fam + ("+hp" if has_hp else ""))
     if has_matern:
         ck.hit("matern_cases")
@@ -226,14 +320,24 @@ def case(ck, i):
         ck.hit("product_cases")
 
     ccfm, ccf = build_cl(ift, cfg)
-    jcfm, jcf = build_re(jft, cfg)
     xik = cfg["prefix"] + "xi"
+    if cfg["total_N"] > 0:
+        case_total_N(ck, ift, rng, cfg, ccfm, ccf, xik, bad)
+        return
+    if cl_only:
+        # option without a nifty.re counterpart: classic normalisation only
+        class _Dom:
+            domain = {k: np.zeros(ccf.domain[k].shape[::-1] if k.endswith("spectrum") else ccf.domain[k].shape)
+                      for k in ccf.domain.keys()}
+        jcfm, jcf = None, _Dom
+    else:
+        jcfm, jcf = build_re(jft, cfg)
 
     # ---- (a) agreement --------------------------------------------------------------------
     extra = sorted(set(ccf.domain.keys()) - set(jcf.domain.keys()))
     # a 2- or 3-pixel axis has a single non-zero |k|: nifty.re then drops the (ineffective) spectrum
     # deviation parameters while nifty.cl keeps them -> allowed, filled with random values
-    allowed = [cfg["prefix"] + f"s{i}" + nm for i, sp in enumerate(cfg["spaces"])
+    allowed = [cfg["prefix"] + sp.get("pfx", "s") + str(i) + nm for i, sp in enumerate(cfg["spaces"])
                if (len(sp["shape"]) == 1 and sp["shape"][0] <= 3 and sp["t"] == "rg")
                for nm in ("flexibility", "asperity", "spectrum")]
     if set(jcf.domain.keys()) - set(ccf.domain.keys()) or any(k not in allowed for k in extra):
@@ -253,6 +357,8 @@ def case(ck, i):
                 bad("latent-shapes", f"latent shape of {k} differs between cl and re",
                     cl=list(ccf.domain[k].shape), re=list(v.shape))
                 return
+        if cl_only:
+            break
         a = np.asarray(jcf({k: jnp.asarray(v) for k, v in pos.items()}))
         b = ccf(to_cl(ift, ccf, pos, extra_vals)).asnumpy()
         ck.hit("agree_checks")
@@ -298,6 +404,10 @@ def case(ck, i):
     def ev(op):
         return float(op.force(lat).asnumpy())
     tag = "matern" if has_matern else "nonparametric"
+    if noadjust and nsp == 2 and any(abs(volume(sp) - 1) > 1e-6 for sp in noadjust):
+        # separate mechanism: in a product the un-adjusted zero-mode entry (1 instead of the volume) of
+        # the Matern amplitude is not reflected in the predictions
+        tag = "matern-noadjust-product"
     ptot = ev(ccfm.total_fluctuation)
     ck.hit("cl_total")
     if not rel(ptot, tot) <= 1e-9:
@@ -349,6 +459,8 @@ def case(ck, i):
                 bad("cl:refinement:realised", "realised variance changes when the resolution is doubled "
                     "at fixed volume and hyper-parameters", coarse=tot, fine=t2)
 
+    if cl_only:
+        return
     # ---- (b) on the JAX side, incl. the JAX-only options ---------------------------------------------
     variants = [(None, None)]
     kinds = tuple(pick(rng, ["amplitude", "power"]) for _ in cfg["spaces"])
